@@ -15,9 +15,9 @@ def strat(q, rt):
     return {"dem": [R("gpu", "any", q)], "rt": rt, "bs": 1, "bid": 0}
 
 
-def task(t, g, name, par, ch, strats, cond=False, term=False, sink=False, src=False):
+def task(t, g, name, par, ch, strats, cond=False, term=False, sink=False, src=False, p0=1000000):
     return {"t": t, "g": g, "nk": [ord(c) for c in name], "par": par, "ch": ch, "cond": cond, "term": term,
-            "strats": strats, "sink": sink, "src": src, "prof": 0}
+            "strats": strats, "sink": sink, "src": src, "prof": 0, "p0": p0}
 
 
 NOSD = {"dem": [], "rt": -1, "bs": 0, "bid": 0}
@@ -31,7 +31,8 @@ def dyn(rel, dl, prob=1000000):
 
 def flags(**kw):
     f = {"frequency": -1, "delay": 0, "at_worker_free": False, "drop_skipped": False, "timeout": 12, "variance": 0,
-         "update_interval": -1, "expect_all_done": False, "sched_rt": 0, "no_plan_ahead": False}
+         "update_interval": -1, "expect_all_done": False, "sched_rt": 0, "no_plan_ahead": False,
+         "resolve_conditionals": False}
     f.update(kw)
     return f
 
@@ -59,6 +60,13 @@ def cfgs(tier):
         MCW={"pools": [[[I("gpu", "g1", 1)]]], "fl": flags(timeout=12, drop_skipped=True)}, MCTasks=tkc, MCGraphs=grc,
         MCInit=[dyn(0, 8), dyn(-1, 8, 500000), dyn(-1, 8, 500000), dyn(-1, 8)], SchedRt=0, Frontier={"la": 0, "rtg": False, "retract": False},
         Delays={0}, MaxInvocations=4, AllowCancel=True)))
+    # C2: the same conditional resolved at submission (branch b fixed when the graph was created), plan-ahead policy
+    tkr = [dict(t) for t in tkc]
+    tkr[1]["p0"], tkr[2]["p0"] = 1000000, 0
+    out.append(("conditional_resolved", dict(
+        MCW={"pools": [[[I("gpu", "g1", 1)]]], "fl": flags(timeout=12, resolve_conditionals=True)}, MCTasks=tkr, MCGraphs=grc,
+        MCInit=[dyn(0, 8), dyn(-1, 8, 1000000), dyn(-1, 8, 0), dyn(-1, 8)], SchedRt=0, Frontier={"la": 4, "rtg": False, "retract": False},
+        Delays={0, 1}, MaxInvocations=3, AllowCancel=False)))
     # E: closed loop: three invocations of a one-task job graph, concurrency 2 (refill on completion)
     tke = [task(1, 1, "r@J0", [], [], [strat(1, 2)], src=True, sink=True), task(2, 2, "r@J1", [], [], [strat(1, 1)], src=True, sink=True),
            task(3, 3, "r@J2", [], [], [strat(1, 2)], src=True, sink=True)]
@@ -207,7 +215,7 @@ def mc_world(name, consts, script):
         "name": f"mc_{name}", "profiles": profiles, "graphs": graphs, "pools": consts["MCW"]["pools"],
         "sched": {"kind": "scripted", "runtime": consts["SchedRt"], "lookahead": fr["la"], "rtg": fr["rtg"], "retract": fr["retract"],
                   "script": script},
-        "flags": {k: fl[k] for k in ("frequency", "delay", "at_worker_free", "drop_skipped", "timeout", "variance")},
+        "flags": {k: fl[k] for k in ("frequency", "delay", "at_worker_free", "drop_skipped", "timeout", "variance", "resolve_conditionals")},
         "seed": 1,
     }
 
